@@ -192,20 +192,22 @@ def all_paths(root, prefix=(), out=None):
     return out
 
 
-def plain(x, SC):
+def plain(x, SC, _depth=0):
     """Convert a library result to plain data WITHOUT going through the public API (no reload): walks _data.
     Anything that is not a synced node is returned as is (after converting containers recursively)."""
+    if _depth > 80:
+        return "<cyclic or deeper than 80 levels>"   # a cycle in the tree (never equal to model data)
     if isinstance(x, SC):
         d = x._data
         if isinstance(d, dict):
-            return {k: plain(v, SC) for k, v in d.items()}
-        return [plain(v, SC) for v in d]
+            return {k: plain(v, SC, _depth + 1) for k, v in d.items()}
+        return [plain(v, SC, _depth + 1) for v in d]
     if type(x) is dict:
-        return {k: plain(v, SC) for k, v in x.items()}
+        return {k: plain(v, SC, _depth + 1) for k, v in x.items()}
     if type(x) is list:
-        return [plain(v, SC) for v in x]
+        return [plain(v, SC, _depth + 1) for v in x]
     if type(x) is tuple:
-        return tuple(plain(v, SC) for v in x)
+        return tuple(plain(v, SC, _depth + 1) for v in x)
     return x
 
 
